@@ -558,6 +558,7 @@ func runC01(r *Run) {
 	c01Websocket(r)
 	c01DemuxAfterCancel(r)
 	topoSweep(r, "unary")
+	c01SharedChain(r)
 	c01HttpSlowUnary(r)
 	// a call abandoned with unread envelopes, then the next call: it gets ITS handler's reply (c05b.go)
 	if r.Want("backlog") {
